@@ -16,6 +16,7 @@ type M = map[string]any
 
 // Program is the executor's input.
 type Program struct {
+	Thr   []int    `json:"thr,omitempty"` // tuning thresholds for this program (karatsuba, basicSqr, karatsubaSqr)
 	ID    string   `json:"id"`
 	Regs  []string `json:"regs"`
 	Ctxs  []string `json:"ctxs,omitempty"`
